@@ -33,6 +33,7 @@ def run(ck):
     ck.assumptions += ["slice::binary_search/insert semantics", "Dynamics::matcher deliberately folds over all caring directives (not covered)"]
     ck.rule("C11.R7", "directive levels are compared by a correct total order (as C19.R1/R2/R4)", floor=60)
     ck.rule("C11.R8", "EnvFilter and Targets implement the same hooks as a layer and as a per-subscriber filter (as C09.R9)", floor=9)
+    ck.rule("C11.R11", "the builder's default directive is added only to a filter that parsed no directive of either kind", floor=1)
     ck.rule("C11.R10", "span-scoped directives can raise the level for a callsite the static directives turn off: EnvFilter never caches `never` while it has span directives (as C08.R11)", floor=2)
     ck.rule("C11.R9", "EnvFilter Builder steps keep every other option (same-named field carry-over, as C13.R6)", floor=3)
     ck.rule("C11.R1", "directive vector mutated only by DirectiveSet::add at the binary_search position; max_level kept an upper bound", floor=5)
@@ -58,6 +59,7 @@ def run(ck):
     from rulekit.query import builder_carry_over
     builder_carry_over(ck, F, "C11.R9", ("tracing_subscriber::filter::env::builder::",))
     C08.envfilter_interest(ck, F, rid="C11.R10")
+    r11(ck, F)
 
 
 def r1(ck, F):
@@ -416,3 +418,39 @@ def derives_from_call(body, o, call_bb, depth=0):
             return False
         o = body.origin(o[2]["argv"][0])
     return False
+
+
+def r11(ck, F):
+    """`EnvFilter::new("[span{f=1}]=debug")` must enable exactly what the string says. Builder::from_directives appends the
+    builder's default directive (bare `error` for `new`/`from_env`) as a fallback for an *empty* filter; if the fallback
+    also fires when only span-scoped directives were given, a directive nobody wrote is enabled and Display no longer
+    round-trips. The site that reads `self.default_directive` must be guarded by emptiness of both tables."""
+    b = F.body(E + "builder::Builder::from_directives")
+    if not ck.anchor("C11.R11", "Builder::from_directives", b):
+        return
+    sites = []
+    for bb, t in b.calls():
+        for a in t["argv"]:
+            o = b.origin(a)
+            if o[0] == "arg" and o[1] == 1 and [x.get("n") for x in o[2]][:1] == ["default_directive"]:
+                sites.append(bb)
+    for i, j, st in b.stmts():
+        if st["k"] == "assign" and "use" in st.get("rv", {}):
+            o = b.origin(st["rv"]["use"])
+            if o[0] == "arg" and o[1] == 1 and [x.get("n") for x in o[2]][:1] == ["default_directive"]:
+                sites.append(i)
+    key = "from_directives: the default directive is a fallback for an empty filter only"
+    if not sites:
+        ck.bad("C11.R11", key, where(b.raw["sp"]), "no use of self.default_directive found (shape not recognised)", fn=b.path)
+        return
+    problems = []
+    for bb in sorted(set(sites)):
+        g, _ = guards_of(b, bb)
+        empt = [t for t, v in g if "is_empty(" in t]
+        tables = {("0" if ").0)" in t else "1" if ").1)" in t else t) for t in empt}
+        if len(tables) < 2:
+            problems.append("the use at bb%d is guarded by emptiness of %d table(s) only (%s)" % (bb, len(tables), [t[:70] for t in empt]))
+    if problems:
+        ck.bad("C11.R11", key, where(b.raw["sp"]), "; ".join(problems) + ": a filter made of span directives alone silently gains the default directive", fn=b.path)
+    else:
+        ck.ok("C11.R11", key, fn=b.path, detail=sorted(set(sites)))
